@@ -173,6 +173,52 @@ pub fn run(ctx: &Ctx) -> (&'static str, &'static str) {
             Ok(if count == 0 { "" } else if count > 17 { "maximal count" } else { "count" })
         },
     );
+    // equal (msg, tag, length) through different field / expander instantiations back to back in one thread
+    {
+        let msgs: Vec<Vec<u8>> = vec![b"".to_vec(), fill(64, 0), fill(137, 1)];
+        ctx.sweep(
+            "hash_to_field.interleaved_instantiations",
+            msgs.len() as u64,
+            |i| json!({"msg_len": msgs[i as usize].len(), "variants": "Fq x6, Fr x8, Fq2 x3 (384 bytes each) x 4 expanders, all ordered pairs"}),
+            |i| {
+                let msg = msgs[i as usize].clone();
+                let dst = rfc_dst(43, 0);
+                // variant = (field, expander); 384 output bytes in every case
+                let variants: Vec<(usize, Expander)> = (0..12).map(|v| (v % 3, EXPANDERS[v / 3])).collect();
+                let want: Vec<Vec<BigUint>> = variants
+                    .iter()
+                    .map(|(f, h)| match f {
+                        0 => hash_to_field_ints(*h, &msg, &dst, 6, 1, 64, q()).unwrap(),
+                        1 => hash_to_field_ints(*h, &msg, &dst, 8, 1, 48, r()).unwrap(),
+                        _ => hash_to_field_ints(*h, &msg, &dst, 3, 2, 64, q()).unwrap(),
+                    })
+                    .collect();
+                let res: Result<(), String> = std::thread::spawn(move || {
+                    for a in 0..12 {
+                        for b in 0..12 {
+                            for &v in &[a, b] {
+                                let (f, h) = variants[v];
+                                let got: Vec<BigUint> = match f {
+                                    0 => lib_h2f_fq(h, &msg, &dst, 6).iter().map(fq_int).collect(),
+                                    1 => lib_h2f_fr(h, &msg, &dst, 8).iter().map(fr_int).collect(),
+                                    _ => lib_h2f_fq2(h, &msg, &dst, 3).iter().flat_map(|x| vec![fq_int(&x.c0), fq_int(&x.c1)]).collect(),
+                                };
+                                if got != want[v] {
+                                    return Err(format!("hash_to_field variant #{} (field {}, {:?}) wrong when evaluated after variant #{}", v, f, h, a));
+                                }
+                            }
+                        }
+                    }
+                    Ok(())
+                })
+                .join()
+                .map_err(|_| Fail::new("hash_to_field panicked in the interleaving run"))?;
+                crate::infra::bump(287);
+                res.map_err(Fail::new)?;
+                Ok("interleaved instantiations")
+            },
+        );
+    }
     // the reduction of one block
     let mut rng = ctx.rng("c13.blocks");
     let mk_blocks = |p: &BigUint, l: usize, rng: &mut crate::infra::SplitMix| -> Vec<Vec<u8>> {
